@@ -893,7 +893,8 @@ static int write_table(void *context, cif_value_tp *table_value) {
     } else {
         int separate_values_save = IS_SEPARATE_VALUES(context);
 
-        if (write_literal(context, "{", 1, separate_values_save) == 1) {
+        /* like every other kind of value, a table that is itself a table entry's value may start on a new line */
+        if (write_literal(context, "{", 1, CIF_WRAP) == 1) {
             int write_names_save = IS_WRITE_ITEM_NAMES(context);
             const UChar **key;
 
@@ -1294,7 +1295,8 @@ static int write_numb(void *context, cif_value_tp *numb_value) {
         /* The value is quoted, so output the literal text value, quoted */
         result = write_char(context, numb_value, CIF_TRUE);
     } else if (cif_value_get_text(numb_value, &text) == CIF_OK) {
-        int32_t nchars = write_uliteral(context, text, -1, IS_SEPARATE_VALUES(context));
+        /* white space may separate a table key's colon from the value, so the number may always go on a new line */
+        int32_t nchars = write_uliteral(context, text, -1, CIF_WRAP);
         free(text);
         result = ((nchars < 0) ? -nchars : ((nchars > 0) ? 0 : CIF_ERROR));
     } else {
